@@ -158,6 +158,15 @@ class Lam:
         self.node, self.env = node, env
 
 
+class Thrower:
+    """a callable model: invoking it returns normally (etype None) or throws an exception of type etype"""
+    __slots__ = ('etype', 'calls')
+
+    def __init__(self, etype=None):
+        self.etype = etype
+        self.calls = 0
+
+
 class Ord:
     """component `idx` of operand `side` of a comparison-only computation: it can only be compared with
     the same component of the other operand, with the outcome fixed by PEval.ordering[idx]"""
@@ -1148,6 +1157,11 @@ class PEval:
                 args = [a for a in ops[1:]]
                 if isinstance(f, Lam):
                     return self.call_lambda(f, args, env, depth)
+                if isinstance(f, Thrower):
+                    f.calls += 1
+                    if f.etype is None:
+                        return None
+                    raise Thrown(n, 'the callback model throws %s' % f.etype, etype=f.etype)
                 raise Undecided('call through a non-lambda object')
             obj = self.ev(ops[0], env, depth)
             if isinstance(obj, Str):
@@ -1322,6 +1336,8 @@ class PEval:
                         obj.s.b = bytearray()
                         return None
                     raise Undecided('StringWriter::%s' % name)
+                if isinstance(obj, tuple) and obj and obj[0] == 'exc' and name == 'what':
+                    return Lit(b'what\0')
                 if isinstance(obj, VecL):
                     vals = [self.ev(a, env, depth) for a in args if a.get('kind') != 'CXXDefaultArgExpr']
                     if name in ('push_back', 'emplace_back') and len(vals) == 1:
